@@ -146,7 +146,8 @@ pub fn c14_native_components() {
         let ops: Vec<(&str, Box<dyn Component<Boxed>>)> = vec![("Saturation", Saturation::new()), ("Toroidal", Toroidal::new()), ("Mirror", Mirror::new()),
                                                               ("CompleteOneTailedNormalCorrection", CompleteOneTailedNormalCorrection::new())];
         for (name, op) in &ops {
-            for seed in 0..8u64 {
+            // the resampling operator draws from a normal distribution: rare large draws matter, so it gets many more seeds
+            for seed in 0..(if *name == "CompleteOneTailedNormalCorrection" { 160u64 } else { 8 }) {
                 let mut state = fresh::<Boxed>(seed);
                 state.populations_mut().push(vec![Individual::new_unevaluated(vec![77.0; d.len()])]);
                 state.populations_mut().push(pop.iter().cloned().map(Individual::new_unevaluated).collect());
